@@ -1,5 +1,5 @@
 """C19 — iv_popen: child wired to the descriptor, always terminated and reaped."""
-from ..core import (AnalysisBroken, Inliner, canon, strip, last_member, must_pass, relpath, norm_cond, walk, forward)
+from ..core import (names_of, same_value, AnalysisBroken, Inliner, canon, strip, last_member, must_pass, relpath, norm_cond, walk, forward)
 from ..analyses import (is_call, holding, path_to, describe, exits_of, callback_kind, must_pass_from_block)
 from .. import interp
 from . import c13
@@ -204,7 +204,7 @@ def detach(ctx):
         return
     for e in det + arm:
         A = hd.get((e['_b'], e['_i']), frozenset())
-        ok = any(a[0] == '!=' and a[2] == '0' and all(k[0] == 'var' for k in a[3]) for a in A)
+        ok = any(a[0] == '!=' and a[2] == '0' and (all(k[0] == 'var' for k in a[3]) or ('iv_popen_request', 'child') in a[3]) for a in A)
         ctx.ob('R-C19d', 'close:%s-only-if-child-running' % ('detach' if e in det else 'arm'), ok, loc=e['loc'],
                detail='%s is on the edge this->child != NULL' % describe(e), fn=f.q)
     mp = must_pass(f, lambda e: e in det)
